@@ -152,8 +152,9 @@ impl Tui {
                     executed_cycles += 1;
                 }
                 thread::sleep(dur_sub(DURATION_BETWEEN_FRAMES, last_draw.elapsed()));
-            } else if last_draw.elapsed() < DURATION_BETWEEN_FRAMES {
-                thread::sleep(DURATION_BETWEEN_FRAMES - last_draw.elapsed());
+            } else {
+                // `elapsed()` grows between a comparison and the subtraction, so subtract saturating
+                thread::sleep(dur_sub(DURATION_BETWEEN_FRAMES, last_draw.elapsed()));
             }
             self.measured_freq =
                 1e6 * executed_cycles as f32 / last_draw.elapsed().as_micros() as f32;
